@@ -2,6 +2,7 @@
 import PasslibVerif.Props.C04
 import PasslibVerif.Props.C06
 import PasslibVerif.Props.C09
+import PasslibVerif.Props.C10
 import PasslibVerif.Props.C11
 import PasslibVerif.Props.C11Blowfish
 import PasslibVerif.Props.C11Scrypt
